@@ -124,7 +124,8 @@ def run(tier):
         "Mode": '"enumerate"',
         "Classes": '{"const", "rampup", "rampdown", "blackman", "kaiser", "interp", "step", "neg"}',
         "Durations": "{4, 16, 52, 100, 400, 1000, 2000}" if quick else "{1, 2, 4, 7, 16, 52, 100, 250, 400, 1000, 2000, 3000}",
-        "Bandwidths": "{4, 8, 40, 120}" if quick else "{1, 4, 8, 20, 40, 120, 480}",
+        # 24, 48, 96: bandwidths whose rise time 0.48 / bw is a whole number of ns only up to float rounding
+        "Bandwidths": "{4, 8, 24, 40, 120}" if quick else "{1, 4, 8, 20, 24, 40, 48, 96, 120, 480}",
         "EomBandwidths": "{0, 24}" if quick else "{0, 24, 40}",
         "Amps": "{1, 24}" if quick else "{1, 8, 24, 60}",
     }
